@@ -14,9 +14,12 @@ checks = sys.argv[3:] or [pid]
 src = f'/tmp/mut/{pid}/_out'
 dst = os.path.join(VERIF, 'seeded', f'{pid}-{k}')
 os.makedirs(dst, exist_ok=True)
-shutil.copy(f'{src}/patch{k}.diff', f'{dst}/patch.diff')
-shutil.copy(f'{src}/demo{k}.py', f'{dst}/demo.py')
-meta = json.load(open(f'{src}/meta{k}.json'))
+if os.path.exists(f'{src}/patch{k}.diff'):          # first import from the sub-agent's scratch worktree
+    shutil.copy(f'{src}/patch{k}.diff', f'{dst}/patch.diff')
+    shutil.copy(f'{src}/demo{k}.py', f'{dst}/demo.py')
+    meta = json.load(open(f'{src}/meta{k}.json'))
+else:                                               # re-evaluation of a stored change
+    meta = json.load(open(f'{dst}/meta.json'))
 
 def sh(cmd, cwd=None, env=None, timeout=1800):
     r = subprocess.run(cmd, shell=True, cwd=cwd, env=env, capture_output=True, text=True, timeout=timeout)
@@ -29,7 +32,7 @@ try:
     env = dict(os.environ, PYTHONPATH=wt, PYTHONDONTWRITEBYTECODE='1')
     demo = f'{dst}/demo.py'
     # demos were written against /tmp/mut/<ID>: make the path neutral
-    txt = open(demo).read().replace(f'/tmp/mut/{pid}', wt)
+    txt = open(demo).read().replace(f'/tmp/mut/{pid}', wt).replace('/tmp/mut/' + meta.get('origin', pid), wt)
     open(f'{wt}/_demo.py', 'w').write(txt)
     rc0, out0 = sh(f'/venv/bin/python _demo.py', cwd=wt, env=env)
     ran['demo_on_original'] = f'exit {rc0}'
